@@ -143,6 +143,18 @@ Theorem C19_test_passed_implies_slope_nonneg : forall d0 d1 u0 u1 L x,
 Proof. exact seg_bad_false_nonneg. Qed.
 Print Assumptions C19_test_passed_implies_slope_nonneg.
 
+(* the hypothesis u0 <= u1 (monotone table values) cannot be dropped: by itself the test is not a
+   monotonicity test — a decreasing straight segment (slopes -1, values 0 then -1) is not flagged *)
+Theorem C19_test_without_monotone_data_refuted :
+  exists d0 d1 u0 u1 L x,
+    seg_bad RA d0 d1 u0 u1 L = false /\ 0 < L /\ 0 <= x <= L /\ dquad d0 d1 u0 u1 L x < 0.
+Proof.
+  exists (-1), (-1), (0 * -1), (1 * -1), (1 - 0), 0.
+  split; [apply line_seg_ok; lra|]. split; [lra|]. split; [lra|].
+  unfold dquad, qc1, qc2. lra.
+Qed.
+Print Assumptions C19_test_without_monotone_data_refuted.
+
 (* hence: a table on which every segment passed yields H(|B|) non-decreasing from the first
    knot on, inside and beyond the table *)
 Theorem C19_H_nondecreasing : forall (m : mat (F:=R)),
@@ -181,6 +193,21 @@ Theorem C19_get_slopes_yields_nondecreasing_H_partial :
   forall x y, hd 0 Bd <= Rabs x -> Rabs x <= Rabs y -> fst (getH RA m x) <= fst (getH RA m y).
 Proof. exact get_slopes_monotone_model. Qed.
 Print Assumptions C19_get_slopes_yields_nondecreasing_H_partial.
+
+(* the same WITH the fill-factor mixing of GetSlopes (LamType 0, 0 < LamFill < 1; the other
+   lamination types do not touch the curve): for a real monotone table that starts at the origin
+   ([mix_inv]: B strictly increasing from 0, H real, non-decreasing, H_0 >= 0, H_1 > 0) the material
+   model that comes out is non-decreasing in |B| on the whole real line.
+   PARTIAL: termination of the loop is not proved. *)
+Theorem C19_get_slopes_with_fill_factor_yields_nondecreasing_H_partial :
+  forall fuel lamfill muo mux (Bd : list R) (Hd : list (R * R)),
+  0 < lamfill < 1 -> 0 < muo -> mix_inv Bd Hd ->
+  let r := get_slopes RA fuel true lamfill muo Bd Hd in
+  rdone r = true ->
+  let m := mkMat (rB r) (rH r) (rS r) mux muo in
+  forall x y, Rabs x <= Rabs y -> fst (getH RA m x) <= fst (getH RA m y).
+Proof. exact get_slopes_monotone_mixing. Qed.
+Print Assumptions C19_get_slopes_with_fill_factor_yields_nondecreasing_H_partial.
 
 (* -- (f) reduction to the linear case ------------------------------------------------------ *)
 (* a table on a straight line through the origin (H_i = k B_i) whose slopes all equal k gives
@@ -254,6 +281,12 @@ Proof. exact get_slopes_line_table. Qed.
 Print Assumptions C19_get_slopes_on_line_table_partial.
 
 (* -- non-vacuity -------------------------------------------------------------------------- *)
+Example C19_mix_inv_satisfiable : mix_inv [0; 1; 2] [(0, 0); (1, 0); (2, 0)].
+Proof.
+  unfold mix_inv. cbn [incr hd length map fst nth nondecr].
+  repeat split; try lra; try lia; repeat constructor; cbn; lra.
+Qed.
+
 (* the spline system of every table has the shape required by the GaussSolve theorem *)
 Example C19_spline_system_has_shape : forall (Bd : list R) (Hd : list (R * R)),
   shape (length Bd) (fst (spline_system RA Bd Hd)) (snd (spline_system RA Bd Hd)).
